@@ -30,6 +30,20 @@ def should_ignore_errors(ignored_paths: set[str], path: Path):
 
 
 def is_safe_path(root_path: Path, path: Path):
+    # The path is joined to several directories (skel, mirror, release folder), so
+    # it must stay below its starting point whatever that starting point is
+    if path.is_absolute():
+        return False
+
+    depth = 0
+    for part in path.parts:
+        if part == "..":
+            depth -= 1
+            if depth < 0:
+                return False
+        else:
+            depth += 1
+
     return (root_path / path).resolve().is_relative_to(root_path.resolve())
 
 
